@@ -1209,6 +1209,37 @@ def gen_ptypes():
                 % (code, tr.cond(v.test), first, new, first, left))
     guarded(out, 'packet Header.__bytearray__', t_hdr_bytes)
 
+    def t_hdr_parse():
+        # Header.parse: how the first octet is read (format bit, length-type bits), which inputs carry a length field, and what
+        # the branch without one stores.  Every other statement must be exactly the pinned text.
+        fn = find_method(hdr, 'parse')
+        body = [st for st in fn.body if not (isinstance(st, ast.Expr) and isinstance(st.value, ast.Constant))]
+        if len(body) != 5: raise Unsupported('Header.parse: %d statements' % len(body))
+
+        class P0(ast.NodeTransformer):
+            def visit_Subscript(self, n):
+                if ast.unparse(n) == 'packet[0]': return ast.copy_location(ast.Name(id='p0', ctx=ast.Load()), n)
+                return self.generic_visit(n)
+        tr = Tr(names={'p0': ('p0', 'Z'), 'self._lenfmt': ('lenfmt', 'Z'), 'self.llen': ('llen', 'Z')})
+        s0, s1, s2, s3, s4 = body
+        if not (isinstance(s0, ast.Assign) and ast.unparse(s0.targets[0]) == 'self._lenfmt'): raise Unsupported('Header.parse: _lenfmt statement')
+        lenfmt = tr.expr(P0().visit(s0.value))
+        if ast.unparse(s1) != 'self.tag = packet[0]': raise Unsupported('Header.parse: tag statement: ' + ast.unparse(s1))
+        if not (isinstance(s2, ast.If) and ast.unparse(s2.test) == 'self._lenfmt == 0' and not s2.orelse and len(s2.body) == 1
+                and isinstance(s2.body[0], ast.Assign) and ast.unparse(s2.body[0].targets[0]) == 'self.llen'):
+            raise Unsupported('Header.parse: length-type statement')
+        code = tr.expr(P0().visit(s2.body[0].value))
+        if ast.unparse(s3) != 'del packet[0]': raise Unsupported('Header.parse: del statement')
+        if not isinstance(s4, ast.If): raise Unsupported('Header.parse: branch')
+        if [ast.unparse(x) for x in s4.body] != ['self.length = packet']: raise Unsupported('Header.parse: length branch changed')
+        if [ast.unparse(x) for x in s4.orelse] != ['self.length = len(packet)', 'self._llen = 1']:
+            raise Unsupported('Header.parse: branch without length field changed: ' + repr([ast.unparse(x) for x in s4.orelse]))
+        return ('Definition gen_hdr_lenfmt (p0 : Z) : Z :=\n %s.\n\n'
+                'Definition gen_hdr_llen_code (p0 : Z) : Z :=\n %s.\n\n'
+                'Definition gen_hdr_has_length (lenfmt llen : Z) : bool :=\n %s.\n\n'
+                'Definition gen_hdr_indet_llen : Z := 1.\n' % (lenfmt, code, tr.cond(s4.test)))
+    guarded(out, 'packet Header.parse', t_hdr_parse)
+
     def t_mpi():
         res = []
         tr = Tr(names={'self': ('v', 'Z')}, calls=dict(I2B))
